@@ -317,6 +317,7 @@ Definition p_even (v : val) : bool := N.even (vnum v).
 Definition p_lt3 (v : val) : bool := vnum v <? 3.
 Definition p_keyeven (v : val) : bool := N.even (vnum (vfst v)).
 Definition fm_half (v : val) : option val := if N.even (vnum v) then Some (VN (vnum v / 2)) else None.
+Definition fm_dec (v : val) : option val := if vnum v =? 0 then None else Some (VN (vnum v - 1)).
 Definition g_rep (v : val) : list val := repeat v (N.to_nat (vnum v mod 3)).
 Definition g_upto (v : val) : list val := map (fun i => VN (N.of_nat i)) (seq 0 (N.to_nat (vnum v mod 4))).
 Definition a_sum (a x : val) : val := VN (vnum a + vnum x).
